@@ -49,6 +49,8 @@ type Replica struct {
 	LastCloneStatus string // last clone status this replica reported
 	StatusAtRW      string // LastCloneStatus at the moment it was told to become RW
 	ToldRW          int
+	CountedWrites   int      // writes applied while the replica-side mode was RW (those count)
+	CountedAtSet    int      // CountedWrites when the revision counter was last set
 	RevertedTo      []string // snapshot disk names of the reverts this replica carried out
 	FailedActions   []string // management actions this replica answered with an error
 }
@@ -166,6 +168,9 @@ func (s *IOs) WriteAt(p []byte, off int64) (int, error) {
 	}
 	if NoFaults {
 		m.Applied = append(m.Applied, Op{"W", id})
+		if m.Mode == "RW" {
+			m.CountedWrites++
+		}
 		return len(p), nil
 	}
 	// three outcomes: ok / error without effect / applied but error
@@ -173,6 +178,9 @@ func (s *IOs) WriteAt(p []byte, off int64) (int, error) {
 	if o == 0 {
 		zzAnswerLate()
 		m.Applied = append(m.Applied, Op{"W", id})
+		if m.Mode == "RW" {
+			m.CountedWrites++
+		}
 		return len(p), nil
 	}
 	if o == 2 {
@@ -235,6 +243,10 @@ func (s *IOs) Unmap(off int64, length int64) (int, error) {
 }
 
 func (s *IOs) Close() error { return nil }
+
+// Counter: the revision count the replica holds now: what it was set to (or started
+// with) plus the writes it has counted since.
+func (m *Replica) Counter() int64 { return m.RevCounter + int64(m.CountedWrites-m.CountedAtSet) }
 
 // HasApplied reports whether the replica applied operation id.
 func (m *Replica) HasApplied(id int) bool {
@@ -341,6 +353,7 @@ func (m *Replica) Action(action string, obj interface{}) error {
 			return err
 		}
 		m.RevCounter = v
+		m.CountedAtSet = m.CountedWrites
 		m.RevSets++
 	}
 	return nil
